@@ -325,6 +325,7 @@ def run(ctx, rep):
     r11b(ctx, rep)
     tables.r11c(ctx, rep)
     tables.r11f(ctx, rep)
+    tables.r11j(ctx, rep, rule="R11j")
     from . import C06
     C06.r06a_restricted(ctx, rep, "R11p", ["marwood::lex::", "marwood::parse::", "marwood::number::Number::parse"],
                         "the reader is total", 30)
